@@ -34,6 +34,26 @@ PROPS = {
             "hist": {"bin": "verifh", "run": "TestC09Hist", "checks": {"quick": 300, "thorough": 32000}, "shards": {"quick": 2, "thorough": 16}},
         },
     },
+    "C03": {
+        "level": "exploration",
+        "level_text": "Generated histories (2-3 logs, mem+SQLite, all refusal classes incl. injected storage failures at WriteOps/GetLatest/Set/Close) with a byte-equality oracle over the whole visible state (every log's checkpoint + log list) before/after each refused request and over the bytes returned with the refusal.",
+        "level_note": "Visible state = what GetCheckpoint/GetLogs return; storage faults are injected at the LogStatePersistence interface without applying the failed call's effect.",
+        "technique": "property-based testing: generated histories + fault injection, before/after state-equality invariant (rapid)",
+        "assumptions": HIST_ASSUME,
+        "parts": {
+            "hist": {"bin": "verifh", "run": "TestC03", "checks": {"quick": 400, "thorough": 40000}, "shards": {"quick": 4, "thorough": 16}},
+        },
+    },
+    "C20": {
+        "level": "exploration",
+        "level_text": "Generated mixed-verdict histories with a recording metric factory installed before the first witness exists; after every request the delta of every witness_update_* counter and label is compared with what the observed verdict allows (and nothing else may move).",
+        "level_note": "Verdict taken from the observed Update result (its agreement with the protocol rules is C09's business); counters are process-wide so each shard is one process and runs its cases sequentially.",
+        "technique": "property-based testing: generated histories, per-step counter-delta oracle (rapid)",
+        "assumptions": HIST_ASSUME,
+        "parts": {
+            "hist": {"bin": "verifh", "run": "TestC20", "checks": {"quick": 400, "thorough": 40000}, "shards": {"quick": 4, "thorough": 16}},
+        },
+    },
 }
 
 # properties not (yet) claimed: id -> reason
